@@ -505,12 +505,20 @@ fn c04_bounds(rep: &mut Rep) {
                 let set = SetOperation { base: a.clone(), operator: op1.clone(), operant: Box::new(ElementOrSetOperation::SetOperation(inner)) };
                 let d = || format!("({ta} {t1} ({tb} {t2} {tc}))");
                 let in_inner = |v: i128| if *t2 == "|" { permits(b, v) || permits(c, v) } else { permits(b, v) && permits(c, v) };
-                let in_set = |v: i128| if *t1 == "|" { permits(a, v) || in_inner(v) } else { permits(a, v) && in_inner(v) };
+                // X.680 clause 50: INTERSECTION binds tighter than UNION — `a ^ b | c` means `(a ^ b) | c`
+                let in_set = |v: i128| if *t1 == "^" && *t2 == "|" { (permits(a, v) && permits(b, v)) || permits(c, v) } else if *t1 == "|" { permits(a, v) || in_inner(v) } else { permits(a, v) && in_inner(v) };
                 let r = hook_fold_constraint_set(&set);
                 rep.check("C04.fold_constraint_set.integer_expression_folds_to_an_integer_element", match &r { Ok(x) => x.as_ref().map_or(false, |f| is_int(f)), Err(_) => true }, d);
                 if let Ok(Some(f)) = &r {
                     rep.check("C04.fold_constraint_set.never_excludes_a_permitted_value", probes.iter().all(|v| !in_set(*v) || permits(f, *v)), d);
                     rep.check("C04.fold_constraint_set.extensible_iff_an_operand_is", ext(f) == (ext(a) || ext(b) || ext(c)), d);
+                }
+                if *t1 == "^" && *t2 == "|" && [a, b, c].iter().all(|e| matches!(e, SubtypeElements::ValueRange { .. })) {
+                    let ml = match (lo(a), lo(b)) { (Some(x), Some(y)) => Some(x.max(y)), (x, None) => x, (None, y) => y };
+                    let mh = match (hi(a), hi(b)) { (Some(x), Some(y)) => Some(x.min(y)), (x, None) => x, (None, y) => y };
+                    let hl = match (ml, lo(c)) { (Some(x), Some(y)) => Some(x.min(y)), _ => None };
+                    let hh = match (mh, hi(c)) { (Some(x), Some(y)) => Some(x.max(y)), _ => None };
+                    rep.check("C04.fold_constraint_set.intersection_is_folded_before_a_following_union", matches!(&r, Ok(Some(f)) if lo(f) == hl && hi(f) == hh), d);
                 }
             } }
         } } }
